@@ -59,6 +59,12 @@ USERS = [
     ("anon", "foo :- {HA}, S > 1.", 2),
     ("two_uses", "foo(X) :- X = #sum {{ S,V : {H} }}. bar(V) :- {H}, S > 2.", 2),
     ("plain_body", "foo(V,S) :- {H}.", 2),
+    ("two_uses_weak_cond", "foo(X) :- X = #sum {{ S,V : {H} }}.\n:~ g(V), S < 3 : {H}. [1@1,V]", 2),
+    ("two_uses_rule_cond", "foo(X) :- X = #sum {{ S,V : {H} }}.\nbar(V) :- g(V), S < 3 : {H}.", 2),
+    ("two_uses_rule_condhead", "foo(X) :- X = #sum {{ S,V : {H} }}.\nbar :- {H} : g(V), t(S).", 2),
+    ("two_uses_constraint_cond", "foo(X) :- X = #sum {{ S,V : {H} }}.\n:- g(V), S > 2 : {H}.", 2),
+    ("weak_cond_only", ":~ g(V), S < 3 : {H}. [1@1,V]", 2),
+    ("two_uses_choice_cond", "foo(X) :- X = #sum {{ S,V : {H} }}.\n{{ bar(V) : {H}, S > 2 }}.", 2),
     ("sum1_w", "foo(X) :- X = #sum {{ S : {H1} }}.", 1),
     ("weak1", ":~ {H1}. [S@1]", 1),
 ]
